@@ -3,7 +3,7 @@
 usage: selftest/patch_sweep.py <patch.diff>...   -> prints, per patch, which checks fire (with the first finding keys)"""
 import json, os, re, shutil, subprocess, sys
 ROOT = os.path.dirname(os.path.dirname(os.path.abspath(__file__)))
-SCR = os.path.join(ROOT, ".work", "patchscratch")
+SCR = os.path.join(ROOT, ".work", os.environ.get("PATCH_SCR", "patchscratch"))
 res = {}
 for pf in sys.argv[1:]:
     shutil.rmtree(SCR, ignore_errors=True)
